@@ -241,6 +241,8 @@ static Verdict evaluate(const BcCase &c, const c10_out &o, bool &hang) {
   if (o.res.live_allocs && known("cbsend_obo_msg_data_leak")) excluded("cbsend_obo_msg_data_leak");
   else PBT_REQUIRE(o.res.live_allocs == 0, "after tp_destroy " << o.res.live_allocs << " library allocation(s) were never freed (broadcast record leak)");
   PBT_REQUIRE(o.res.double_free == 0, "library freed a pointer twice / an unknown pointer");
+  PBT_REQUIRE(o.res.mutex_gone == 0, o.res.mutex_gone << " pool thread(s) were still inside the critical section of a broadcast record when the record was destroyed / its "
+                                                         "memory reused: the synchronous call returned (or the record was freed) before the callback bookkeeping had finished");
   if (any_nt) nontrivial_cur();
   return Verdict::pass();
 }
